@@ -61,17 +61,14 @@ theorem modeDecision_range {s : DSt} {o : Oracle} (hs : DInv s) (ho : OracleOk o
   unfold modeDecision
   have := hs.forcedMode; have := ho.mode
   consts
-  simp only []
-  repeat' split
-  all_goals omega
+  grind
 
 theorem modeTransition_range {m pm f fs : Int} (hm : 1000 ≤ m ∧ m ≤ 1002)
     (hp : pm = 0 ∨ (1000 ≤ pm ∧ pm ≤ 1002)) :
     1000 ≤ (modeTransition m pm f fs).mode ∧ (modeTransition m pm f fs).mode ≤ 1002 := by
   unfold modeTransition
   consts
-  repeat' split
-  all_goals (simp only []; omega)
+  grind
 
 theorem trOf_range {s : DSt} {o : Oracle} (hs : DInv s) (ho : OracleOk o) (f : Int) :
     1000 ≤ (trOf s o f).mode ∧ (trOf s o f).mode ≤ 1002 :=
@@ -81,33 +78,26 @@ theorem trOf_range {s : DSt} {o : Oracle} (hs : DInv s) (ho : OracleOk o) (f : I
 theorem trOf_short {s : DSt} {o : Oracle} {f : Int} (h : f < s.fs / 100) : (trOf s o f).mode = 1002 := by
   unfold trOf modeTransition modeDecision
   consts
-  simp only []
-  repeat' split
-  all_goals (simp only [] at *; omega)
+  grind
 
-/-- An LFE stream is coded by the MDCT layer alone if no SILK/hybrid frame precedes. -/
+/-- A low-delay stream is coded by the MDCT layer alone if no SILK/hybrid frame precedes. -/
 theorem trOf_lowdelay {s : DSt} {o : Oracle} {f : Int} (happ : s.application = 2051)
     (hp : s.prevMode = 0 ∨ s.prevMode = 1002) : (trOf s o f).mode = 1002 ∧ (trOf s o f).toCelt = false := by
   unfold trOf modeTransition modeDecision
   consts
-  simp only []
-  repeat' split
-  all_goals (simp only [] at *; omega)
+  grind
 
 theorem modeFix_range {m bw : Int} (hm : 1000 ≤ m ∧ m ≤ 1002) :
     1000 ≤ modeFix m bw ∧ modeFix m bw ≤ 1002 := by
-  unfold modeFix; consts; simp only []; repeat' split
-  all_goals omega
+  unfold modeFix; consts; grind
 
 theorem modeFix_celt (m bw : Int) : modeFix m bw = 1002 ↔ m = 1002 := by
-  unfold modeFix; consts; simp only []; repeat' split
-  all_goals omega
+  unfold modeFix; consts; grind
 
 /-- After :1610-1613 SILK-only means at most wideband, hybrid means above wideband. -/
 theorem modeFix_bw {m bw : Int} (hm : 1000 ≤ m ∧ m ≤ 1002) :
     (modeFix m bw = 1000 → bw ≤ 1103) ∧ (modeFix m bw = 1001 → 1104 ≤ bw) := by
-  unfold modeFix; consts; simp only []; repeat' split
-  all_goals omega
+  unfold modeFix; consts; grind
 
 theorem autoBw_range {s : DSt} {o : Oracle} (hs : DInv s) (ho : OracleOk o) (m : Int) :
     1101 ≤ autoBw s o m ∧ autoBw s o m ≤ 1105 := by
@@ -115,23 +105,44 @@ theorem autoBw_range {s : DSt} {o : Oracle} (hs : DInv s) (ho : OracleOk o) (m :
   have := hs.bw; have := ho.bw
   split <;> omega
 
-theorem clampBw_range {s : DSt} (hs : DInv s) {m r bw : Int} (hb : 1101 ≤ bw ∧ bw ≤ 1105) :
-    1101 ≤ clampBw s m r bw ∧ clampBw s m r bw ≤ 1105 := by
-  unfold clampBw
-  have := hs.maxBw; have := hs.userBw
+/-- `clampBw` step by step (:1550-1571): the result is in range, at most the forced bandwidth
+    (else the maximum bandwidth) and at most the Nyquist bandwidth. -/
+theorem clampBw_spec {s : DSt} (hs : DInv s) (m r bw : Int) (hb : 1101 ≤ bw ∧ bw ≤ 1105) :
+    clampBw s m r bw ≤ (if s.userBandwidth ≠ -1000 then s.userBandwidth else s.maxBandwidth) ∧
+    clampBw s m r bw ≤ nyquistBw s.fs ∧ 1101 ≤ clampBw s m r bw ∧ clampBw s m r bw ≤ 1105 := by
+  have h1 := hs.maxBw; have h2 := hs.userBw
+  unfold clampBw nyquistBw
+  extract_lets b1 b2 b3 b4 b5 b6 b7
   consts
-  simp only []
+  have e1 : b1 ≤ s.maxBandwidth ∧ 1101 ≤ b1 ∧ b1 ≤ 1105 := by simp only [b1]; consts; split <;> omega
+  clear_value b1
+  have e2 : b2 ≤ (if ¬ s.userBandwidth = -1000 then s.userBandwidth else s.maxBandwidth) ∧ 1101 ≤ b2 ∧ b2 ≤ 1105 := by
+    simp only [b2]; consts; split <;> simp_all <;> omega
+  clear_value b2
+  have e3 : b3 ≤ b2 ∧ 1101 ≤ b3 := by simp only [b3]; consts; split <;> omega
+  clear_value b3
+  have e4 : b4 ≤ b3 ∧ 1101 ≤ b4 ∧ (s.fs ≤ 24000 → b4 ≤ 1104) := by simp only [b4]; consts; split <;> omega
+  clear_value b4
+  have e5 : b5 ≤ b4 ∧ 1101 ≤ b5 ∧ (s.fs ≤ 16000 → b5 ≤ 1103) := by simp only [b5]; consts; split <;> omega
+  clear_value b5
+  have e6 : b6 ≤ b5 ∧ 1101 ≤ b6 ∧ (s.fs ≤ 12000 → b6 ≤ 1102) := by simp only [b6]; consts; split <;> omega
+  clear_value b6
+  have e7 : b7 ≤ b6 ∧ 1101 ≤ b7 ∧ (s.fs ≤ 8000 → b7 ≤ 1101) := by simp only [b7]; consts; split <;> omega
+  clear_value b7
+  refine ⟨by omega, ?_, by omega, by omega⟩
   repeat' split
   all_goals omega
+
+theorem clampBw_range {s : DSt} (hs : DInv s) {m r bw : Int} (hb : 1101 ≤ bw ∧ bw ≤ 1105) :
+    1101 ≤ clampBw s m r bw ∧ clampBw s m r bw ≤ 1105 :=
+  ⟨(clampBw_spec hs m r bw hb).2.2.1, (clampBw_spec hs m r bw hb).2.2.2⟩
 
 theorem finishBw_range {s : DSt} {o : Oracle} (ho : OracleOk o) {m bw : Int} (hb : 1101 ≤ bw ∧ bw ≤ 1105) :
     1101 ≤ finishBw s o m bw ∧ finishBw s o m bw ≤ 1105 := by
   unfold finishBw
   have := ho.det
   consts
-  simp only []
-  repeat' split
-  all_goals omega
+  grind
 
 theorem bwOf_range {s : DSt} {o : Oracle} (hs : DInv s) (ho : OracleOk o) (f b : Int) :
     1101 ≤ bwOf s o f b ∧ bwOf s o f b ≤ 1105 :=
@@ -142,28 +153,23 @@ theorem bwOf_range {s : DSt} {o : Oracle} (hs : DInv s) (ho : OracleOk o) (f b :
 /-- The forced bandwidth if any, else the maximum bandwidth. -/
 def userLimit (s : DSt) : Int := if s.userBandwidth ≠ OPUS_AUTO then s.userBandwidth else s.maxBandwidth
 
-theorem clampBw_le {s : DSt} (hs : DInv s) (m r bw : Int) :
+theorem clampBw_le {s : DSt} (hs : DInv s) (m r bw : Int) (hb : 1101 ≤ bw ∧ bw ≤ 1105) :
     clampBw s m r bw ≤ userLimit s ∧ clampBw s m r bw ≤ nyquistBw s.fs := by
-  unfold clampBw userLimit nyquistBw
-  have := hs.maxBw; have := hs.userBw
-  consts
-  simp only []
-  repeat' split
-  all_goals omega
+  have h := clampBw_spec hs m r bw hb
+  unfold userLimit; consts
+  exact ⟨h.1, h.2.1⟩
 
 /-- :1574-1604 only lower the bandwidth, except for the MDCT layer's missing medium band. -/
 theorem finishBw_le {s : DSt} {o : Oracle} (m bw : Int) (hb : 1101 ≤ bw) :
     finishBw s o m bw ≤ bw ∨ (m = 1002 ∧ finishBw s o m bw = 1103 ∧ bw ≥ 1102) := by
   unfold finishBw
   consts
-  simp only []
-  repeat' split
-  all_goals omega
+  grind
 
 theorem bwLimit_eq (s : DSt) (mode : Int) :
     bwLimit s mode = if mode = 1002 ∧ min (userLimit s) (nyquistBw s.fs) = 1102 then 1103
                      else min (userLimit s) (nyquistBw s.fs) := by
-  unfold bwLimit userLimit; consts; rfl
+  unfold bwLimit userLimit; consts
 
 /-- **Bandwidth clamp chain.**  For all DSP inputs the bandwidth at :1606 is at most the forced
     bandwidth (else the maximum bandwidth) and at most the Nyquist bandwidth of the input rate;
@@ -171,7 +177,7 @@ theorem bwLimit_eq (s : DSt) (mode : Int) :
 theorem bwOf_le {s : DSt} {o : Oracle} (hs : DInv s) (ho : OracleOk o) (f b : Int) :
     bwOf s o f b ≤ bwLimit s (modeFix (trOf s o f).mode (bwOf s o f b)) := by
   rw [bwLimit_eq]
-  have hc := clampBw_le hs (trOf s o f).mode ((s.fs / f) * b * 8) (autoBw s o (trOf s o f).mode)
+  have hc := clampBw_le hs (trOf s o f).mode ((s.fs / f) * b * 8) (autoBw s o (trOf s o f).mode) (autoBw_range hs ho _)
   have hr := clampBw_range hs (m := (trOf s o f).mode) (r := (s.fs / f) * b * 8) (autoBw_range hs ho (trOf s o f).mode)
   have hf := finishBw_le (s := s) (o := o) (trOf s o f).mode _ hr.1
   have hfix := modeFix_celt (trOf s o f).mode (bwOf s o f b)
@@ -202,14 +208,13 @@ theorem chain_mono_encoder {s : DSt} {o : Oracle} {f b : Int} (hs : DInv s) (hc 
     (chain s o f b).streamChannels = 1 := by
   rw [chain_streamChannels]; unfold monoDelay chanDecision; consts
   have := hs.prevCh
-  simp [hc]; omega
+  grind
 
 /-- Forced mono: the packet is mono unless this is the one delayed frame, which arms `toMono`. -/
 theorem chain_forced_mono {s : DSt} {o : Oracle} {f b : Int} (hc : s.channels = 2) (hf : s.forceChannels = 1) :
     ((chain s o f b).streamChannels = 1 ∧ (chain s o f b).toMono = 0) ∨
     ((chain s o f b).streamChannels = 2 ∧ (chain s o f b).toMono = 1 ∧ s.toMono = 0 ∧ s.prevChannels = 2) := by
   rw [chain_streamChannels, chain_toMono]; unfold monoDelay chanDecision; consts
-  simp only [hc, hf]
-  split <;> simp_all
+  grind
 
 end Opus.EncDecide
